@@ -725,6 +725,56 @@ class Z3Real:
         return v     # not fully determined by the substitution
 
 
+class FPReal(Z3Real):
+    """Standard model of IEEE-754 binary64 arithmetic over the reals (an OVER-approximation of what the hardware does):
+    every float operation returns exact*(1+e)+d with fresh |e| <= 2^-53, |d| <= 2^-1075 (no overflow assumed; the callers'
+    ranges are far below 2^1024). `unsat` in this model is a proof for all binary64 inputs in the real interval; `sat` means
+    nothing by itself (the obligation then falls back to the exact QF_BVFP encoding). ints are z3 Ints, floats z3 Reals."""
+    name = 'z3 Real, standard FP error model (|e|<=2^-53)'
+    U = Fraction(1, 2 ** 53)
+    D = Fraction(1, 2 ** 1075)
+
+    def __init__(self):
+        super().__init__()
+        self.side = []        # facts about the fresh rounding-error variables + exactness requirements (ints below 2^53)
+        self.requires = []
+        self._n = 0
+
+    def _rounded(self, exact):
+        self._n += 1
+        e, d = self.z3.Real(f'eps_{self._n}'), self.z3.Real(f'del_{self._n}')
+        self.side += [e >= self.val(-self.U), e <= self.val(self.U), d >= self.val(-self.D), d <= self.val(self.D)]
+        return exact * (1 + e) + d
+
+    def _exact_int(self, v):
+        if self.is_term(v):
+            self.requires.append(self.z3.And(v <= 2 ** 53, v >= -2 ** 53))
+        elif abs(v) > 2 ** 53:
+            raise Unsupported('integer constant beyond 2^53 converted to float')
+
+    def fold(self, op, a, b):
+        if isinstance(a, Fraction) or isinstance(b, Fraction) or op == 'div':
+            r = {'add': lambda x, y: x + y, 'sub': lambda x, y: x - y, 'mul': lambda x, y: x * y,
+                 'div': lambda x, y: x / y}.get(op)
+            if r is None:
+                raise Unsupported(f'float {op}')
+            return Fraction(r(float(a) if isinstance(a, Fraction) else a, float(b) if isinstance(b, Fraction) else b))
+        return super().fold(op, a, b)
+
+    def arith(self, op, a, b):
+        if op in ('floordiv', 'mod') or (self.is_int(a) and self.is_int(b) and op != 'div'):
+            return super().arith(op, a, b)
+        for x in (a, b):
+            if self.is_int(x):
+                self._exact_int(x)
+        return self._rounded(super().arith(op, a, b))
+
+    def builtin(self, sym, st, name, args):
+        if name == 'float' and len(args) == 1 and self.is_int(args[0]):
+            self._exact_int(args[0])
+        return super().builtin(sym, st, name, args)
+
+
 class Pieces:
     """Concatenation of string pieces (constants, DecStr, FracDigits ...) - an output that is only inspected by the oracle."""
     pytype = 'str'
@@ -1120,6 +1170,31 @@ class FP64:
             c = self.cmp('le', args[0], args[1])     # python: min(a, b) = a if a <= b else b  (b < a is tested; no NaN here)
             return self.ite(c, args[0], args[1]) if name == 'min' else self.ite(c, args[1], args[0])
         raise Unsupported(f'builtin {name} in FP64 mode')
+
+    def exact_diff_ge(self, a, b, bound: Fraction):
+        """Bool term: the EXACT real difference a - b of two Float64 terms is >= `bound` (a positive rational that need not be
+        representable). Knuth's TwoSum gives s + e == a - b exactly (s = RNE(a - b)); with c_lo < bound <= c_hi the doubles
+        bracketing the bound:  a - b >= bound  <=>  s > c_hi  or  (s == c_hi and e >= up(bound - c_hi))  or
+        (s == c_lo and e >= up(bound - c_lo)),  up(x) = smallest double >= x (e is a double, so the comparison is exact)."""
+        import math
+
+        def up(fr):
+            f = float(fr)
+            return f if Fraction(f) >= fr else math.nextafter(f, math.inf)
+        f = float(bound)
+        c_hi = f if Fraction(f) >= bound else math.nextafter(f, math.inf)
+        c_lo = c_hi if Fraction(c_hi) == bound else math.nextafter(c_hi, -math.inf)
+        a, b = self.val(a, 'F').s, self.val(b, 'F').s
+        nb = f'(fp.neg {b})'
+        s_ = f'(fp.add RNE {a} {nb})'
+        a1 = f'(fp.sub RNE {s_} {nb})'
+        b1 = f'(fp.sub RNE {s_} {a1})'
+        e_ = f'(fp.add RNE (fp.sub RNE {a} {a1}) (fp.sub RNE {nb} {b1}))'
+        hi, lo = f64_lit(c_hi), f64_lit(c_lo)
+        parts = [f'(fp.gt {s_} {hi})', f'(and (fp.eq {s_} {hi}) (fp.geq {e_} {f64_lit(up(bound - Fraction(c_hi)))}))']
+        if c_lo != c_hi:
+            parts.append(f'(and (fp.eq {s_} {lo}) (fp.geq {e_} {f64_lit(up(bound - Fraction(c_lo)))}))')
+        return T('B', '(or ' + ' '.join(parts) + ')')
 
     def format(self, sym, st, v, spec):
         if spec == '' and v.sort == 'I':
